@@ -73,6 +73,10 @@ func (x *Exec) callStatic(cs *callSite, callee *ssa.Function, bindings []*Val) *
 	if m, ok := libModels[key]; ok {
 		return m(x, cs)
 	}
+	if strings.HasPrefix(key, "github.com/indexsupply/shovel/wctx.") {
+		x.assumeNote("wctx.* (context value accessors) summarised as effect-free, non-panicking functions with unconstrained results")
+		return x.freshResult(cs.st, "wctx", cs.res)
+	}
 	if c := x.w.contractOf(callee); c != nil {
 		return x.applyContract(cs, callee, c)
 	}
@@ -508,6 +512,39 @@ func (x *Exec) applyContract(cs *callSite, callee *ssa.Function, c *FuncContract
 		env.pkg = pkg.Pkg
 	}
 	cname := relFuncName(callee)
+	// a callee verified against a database view (conn=<param>): bind the view to
+	// the caller's working copy or committed state, depending on the connection passed
+	view := ""
+	if cp := c.Opts["conn"]; cp != "" && x.dbMode() != "" {
+		for i, p := range callee.Params {
+			if p.Name() == cp && i < len(cs.args) {
+				view = x.view(st, x.term(cs.args[i]))
+			}
+		}
+		if view != "" && view != "V_" {
+			for _, n := range []string{"cur", "hash", "rows"} {
+				st.ghost["V_"+n] = st.ghost[view+n]
+			}
+		}
+		// the callee acts on its own pair: it must be the caller's pair
+		if spec := c.Opts["pair"]; spec != "" {
+			if src, ig, ok := x.pairTerms(st); ok {
+				parts := strings.Split(spec, ",")
+				for k, pe := range parts {
+					if e, err := parseCExpr(pe); err == nil {
+						if cv, err := x.eval(env, e); err == nil {
+							want := src
+							if k == 1 {
+								want = ig
+							}
+							x.check(st, "frame", x.oblName(cs.fr, fmt.Sprintf("call-pair[%s#%d]", cname, k), cs.pos), Eq(x.cvTerm(cv, nil), want), []string{"C04"},
+								"callee "+cname+" acts on the caller's own (source, integration) pair", x.pos(cs.pos))
+						}
+					}
+				}
+			}
+		}
+	}
 	for i, cl := range c.Clauses {
 		if cl.Kind != "requires" {
 			continue
@@ -540,6 +577,15 @@ func (x *Exec) applyContract(cs *callSite, callee *ssa.Function, c *FuncContract
 	old := st.clone()
 	// havoc what the callee may modify
 	mods := x.funcMods(callee)
+	if view != "" && view != "V_" {
+		// only the bound view may change
+		m2 := newModSet()
+		m2.union(mods, false)
+		for _, g := range []string{"D_cur", "D_hash", "D_rows", "W_cur", "W_hash", "W_rows"} {
+			delete(m2.ghost, g)
+		}
+		mods = m2
+	}
 	x.havocMods(cs.fr, st, mods, "call")
 	res := x.freshResult(st, "res_"+callee.Name(), cs.res)
 	// postconditions
@@ -558,6 +604,15 @@ func (x *Exec) applyContract(cs *callSite, callee *ssa.Function, c *FuncContract
 			continue
 		}
 		x.assume(st, t)
+	}
+	if view != "" && view != "V_" {
+		for _, n := range []string{"cur", "hash", "rows"} {
+			st.ghost[view+n] = st.ghost["V_"+n]
+			delete(st.ghost, "V_"+n)
+		}
+		if view == "D_" {
+			x.commitObligations(cs, "autocommit")
+		}
 	}
 	return res
 }
@@ -757,6 +812,17 @@ func (x *Exec) modOfCall(m *modSet, cc *ssa.CallCommon) {
 		m.alloc = true
 		return
 	}
+	// function values passed as arguments may be called by the callee (errgroup.Go, sort, ...)
+	for _, a := range cc.Args {
+		switch f := a.(type) {
+		case *ssa.MakeClosure:
+			m.union(x.funcMods(f.Fn.(*ssa.Function)), false)
+		case *ssa.Function:
+			if x.inlinableStatic(f) {
+				m.union(x.funcMods(f), false)
+			}
+		}
+	}
 	switch callee := cc.Value.(type) {
 	case *ssa.Builtin:
 		switch callee.Name() {
@@ -773,6 +839,18 @@ func (x *Exec) modOfCall(m *modSet, cc *ssa.CallCommon) {
 			m.heaps[x.mapDomName(mt)] = true
 		}
 	case *ssa.Function:
+		if c := x.w.contractOf(callee); c != nil && c.Opts["conn"] != "" {
+			// the callee acts on the database view behind one connection argument
+			sub := newModSet()
+			x.modOfFunc(sub, callee)
+			for i, p := range callee.Params {
+				if p.Name() == c.Opts["conn"] && i < len(cc.Args) {
+					restrictView(sub, connKind(cc.Args[i]))
+				}
+			}
+			m.union(sub, false)
+			return
+		}
 		x.modOfFunc(m, callee)
 	case *ssa.MakeClosure:
 		x.modOfFunc(m, callee.Fn.(*ssa.Function))
@@ -797,6 +875,9 @@ func (x *Exec) modOfFunc(m *modSet, callee *ssa.Function) {
 	}
 	if _, ok := libModels[key]; ok {
 		return // modelled as pure
+	}
+	if strings.HasPrefix(key, "github.com/indexsupply/shovel/wctx.") {
+		return
 	}
 	if x.w.contractOf(callee) != nil || x.inlinableStatic(callee) {
 		m.union(x.funcMods(callee), false)
@@ -831,3 +912,40 @@ func (x *Exec) inlinableStatic(fn *ssa.Function) bool {
 }
 
 func (x *Exec) noteStore(fr *Frame, st *State, loc *Loc, p token.Pos) {}
+
+// connKind classifies a connection argument statically: "tx" (a pgx.Tx value),
+// "pool" (*pgxpool.Pool) or "" (unknown wpg.Conn).
+func connKind(v ssa.Value) string {
+	for {
+		switch u := v.(type) {
+		case *ssa.ChangeInterface:
+			v = u.X
+			continue
+		case *ssa.MakeInterface:
+			v = u.X
+			continue
+		}
+		break
+	}
+	ts := types.TypeString(v.Type(), nil)
+	switch {
+	case strings.HasSuffix(ts, "pgx/v5.Tx"):
+		return "tx"
+	case strings.HasSuffix(ts, "pgxpool.Pool"):
+		return "pool"
+	}
+	return ""
+}
+
+func restrictView(m *modSet, kind string) {
+	var drop []string
+	switch kind {
+	case "tx":
+		drop = []string{"D_cur", "D_hash", "D_rows"}
+	case "pool":
+		drop = []string{"W_cur", "W_hash", "W_rows"}
+	}
+	for _, g := range drop {
+		delete(m.ghost, g)
+	}
+}
